@@ -53,20 +53,17 @@ def hshort(e):
 # ---------------------------------------------------------------------------------------
 
 def obs_C01(an):
-    # order of successful reads and of result-code completions
+    # order of successful reads and of result-code completions (polarity is not C01's business)
     items = []
     done = {}
     for u in an.codes():
         if u.complete:
-            done.setdefault(u.end, []).append(bytes(u.payload) == OKP)
+            done[u.end] = done.get(u.end, 0) + 1
     rd = {}
     for (li, b) in an.reads:
         rd[li] = rd.get(li, 0) + 1
     for li in range(len(an.lines)):
-        for _ in range(rd.get(li, 0)):
-            items.append("r")
-        for ok in done.get(li, []):
-            items.append("+" if ok else "-")
+        items.append("r" * rd.get(li, 0) + "c" * done.get(li, 0))
     return "".join(items)
 
 
@@ -224,7 +221,17 @@ def oracle_C09(an):
 # ---------------------------------------------------------------------------------------
 
 def obs_C03(an):
-    return ("fault" if (an.tr.abort or an.tr.faults) else "clean"), [tuple(l.b) for l in an.lines]
+    """fault status, and for every call whether a buffer region changed while its machine was inactive"""
+    viol = []
+    for li in range(1, len(an.lines)):
+        p, l = an.lines[li - 1], an.lines[li]
+        if not an.is_svc(li) or len(p.st) < 3:
+            continue
+        cmd_active = p.st[0] != 0 or any(e[0] == "R" and e[1] is not None for e in an.ev[li])
+        uns_active = p.st[1] != 0 or p.st[2] != 0
+        if (not cmd_active and l.b[0] != p.b[0]) or (not uns_active and l.b[1] != p.b[1]):
+            viol.append(l.op)
+    return ("fault" if (an.tr.abort or an.tr.faults) else "clean"), viol
 
 
 def oracle_C03(an):
@@ -437,7 +444,14 @@ def oracle_C05(an):
 # ---------------------------------------------------------------------------------------
 
 def obs_C06(an):
-    return [e[:8] for e in seq(an, {"Hc", "Hu"})] + [bytes(u.payload) for u in an.codes()]
+    out = []
+    for e in seq(an, {"Hc", "Hu"}):
+        if e[1] == "w":
+            out.append(e[:8])
+        else:
+            # read/test/run handlers: what C06 promises is length = strlen, NUL inside, true capacity
+            out.append((e[1], e[2], e[3], e[6] == len(e[4]), e[5], e[7]))
+    return out, [bytes(u.payload) for u in an.codes()]
 
 
 def oracle_C06(an):
@@ -484,7 +498,13 @@ def oracle_C06(an):
 # ---------------------------------------------------------------------------------------
 
 def obs_C08(an):
-    return seq(an, {"mem", "unit"})
+    ro, other = set(), set()
+    for c in an.scn.cmds:
+        for var in (c.vars or []):
+            (ro if var.acc == 1 else other).add(var.slot)
+    ro -= other
+    changes = [x for l in an.lines for x in l.m if int(x.split(":")[0]) in ro]
+    return changes, [bytes(u.payload) for u in an.units if u.complete and not u.raw and not u.is_code()]
 
 
 def oracle_C08(an):
@@ -920,7 +940,25 @@ def oracle_C14(an):
 # ---------------------------------------------------------------------------------------
 
 def obs_C15(an):
-    return [l.ret for li, l in enumerate(an.lines) if an.is_svc(li)]
+    """the facts C15 speaks about: OK followed by a non-quiet repeat; how each drain ended"""
+    bad = 0
+    for li in range(len(an.lines) - 1):
+        l, n = an.lines[li], an.lines[li + 1]
+        if an.is_svc(li) and an.is_svc(li + 1) and l.ret == 0 and an.opno(li + 1) - an.opno(li) <= 1:
+            if an.opno(li) != an.opno(li + 1) and an.in_at_op[an.opno(li)] != an.in_at_op[an.opno(li + 1)]:
+                continue
+            if any(e[0] == "R" and e[1] is not None for e in an.ev[li + 1]):
+                continue
+            if n.ret not in (0, -2, -3) or not quiet_call(an, li + 1):
+                bad += 1
+    ends = []
+    byop = {}
+    for li, l in enumerate(an.lines):
+        byop.setdefault(an.opno(li), []).append(li)
+    for k, idxs in sorted(byop.items()):
+        if an.optext[k].startswith("drain"):
+            ends.append(an.lines[idxs[-1]].ret)
+    return bad, ends
 
 
 def quiet_call(an, li):
@@ -998,7 +1036,12 @@ def skeleton(an, li):
 
 
 def obs_C16(an):
-    return [(skeleton(an, li), l.ret) for li, l in enumerate(an.lines)]
+    out = []
+    for li, l in enumerate(an.lines):
+        sk = skeleton(an, li)
+        locks = [x for x in sk if x[0] in "LU"]
+        out.append((locks, bool(sk) and sk[0][0] == "L", bool(sk) and sk[-1][0] == "U", l.ret if l.ret in (-2, -3) else None))
+    return out
 
 
 def oracle_C16(an):
@@ -1052,8 +1095,34 @@ def oracle_C16(an):
 # ---------------------------------------------------------------------------------------
 
 def obs_C18(an):
+    """for every call after which cat_is_busy reports OK: was anything in flight? plus the hold flag history"""
+    facts = []
+    partial = bytearray()
+    nb_done = 0
+    rd_at = {}
+    for (li, b) in an.reads:
+        rd_at.setdefault(li, []).append(b)
+    codes = sorted(u.end for u in an.codes() if u.complete)
+    for li, l in enumerate(an.lines):
+        for b in rd_at.get(li, []):
+            if b == 10:
+                if nonblank(partial):
+                    nb_done += 1
+                partial = bytearray()
+            else:
+                partial.append(b)
+        if l.q[0] == 0:
+            ncodes = sum(1 for e in codes if e <= li)
+            inc = any(u.start <= li and (not u.complete or u.end > li) for u in an.units)
+            facts.append((nonblank(partial), ncodes < nb_done, inc))
+        elif an.is_svc(li) and l.ret == 0 and not nonblank(partial):
+            facts.append("quiescent-but-busy")
+    h = []
+    for l in an.lines:
+        if not h or h[-1] != l.q[1]:
+            h.append(l.q[1])
     rets = [(an.op_of(li).split()[0], l.ret) for li, l in enumerate(an.lines) if an.op_of(li).split()[0] in ("busy", "hold")]
-    return [(l.q[0], l.q[1]) for l in an.lines], rets
+    return sorted(set(map(str, facts))), h, rets
 
 
 def oracle_C18(an):
@@ -1107,7 +1176,13 @@ def oracle_C18(an):
 # ---------------------------------------------------------------------------------------
 
 def obs_C19(an):
-    return [(u.raw, bytes(u.payload)) for u in an.units if u.fsm == "c" and u.complete]
+    """command-list lines, and the data lines answering `=?` requests"""
+    out = [(True, bytes(u.payload)) for u in an.units if u.fsm == "c" and u.complete and u.raw]
+    for (t, a, b) in line_spans(an):
+        tt = bytes(c for c in t if c != 13)
+        if tt.endswith(b"=?"):
+            out += [(False, bytes(u.payload)) for u in an.units if u.fsm == "c" and u.complete and not u.raw and a <= u.start < b]
+    return out
 
 
 def expected_test_text(c, nl):
@@ -1209,7 +1284,8 @@ def oracle_C19(an):
 # ---------------------------------------------------------------------------------------
 
 def obs_C20(an):
-    return [(u.raw, bytes(u.pre), bytes(u.payload), bytes(u.post)) for u in an.units if u.fsm == "c" and u.complete] + seq(an, {"mem"})
+    """newlines of the command machine's units (the payloads are other properties' business)"""
+    return [(u.raw, bytes(u.pre), bytes(u.post), bytes(u.payload)[-2:] if u.raw else b"") for u in an.units if u.fsm == "c" and u.complete]
 
 
 def oracle_C20(an):
@@ -1243,7 +1319,13 @@ def oracle_C20(an):
 # ---------------------------------------------------------------------------------------
 
 def obs_C07(an):
-    return [bytes(u.payload) for u in an.units if u.fsm == "c" and u.complete and not u.raw] + seq(an, {"mem"})
+    """data lines answering READ requests"""
+    out = []
+    for (t, a, b) in line_spans(an):
+        tt = bytes(c for c in t if c != 13)
+        if tt.endswith(b"?") and not tt.endswith(b"=?"):
+            out += [bytes(u.payload) for u in an.units if u.fsm == "c" and u.complete and not u.raw and a <= u.start < b]
+    return out
 
 
 def oracle_C07(an):
